@@ -343,7 +343,7 @@ def ser_serialize(ctx, mode):
     def dump(I, args, kw):
         # in memory mode the body has no handler: the object state is assumed picklable there (A-USERCODE)
         if mode != 'memory' and I.ctx.decide(FreshBool('pickleFails'), 'pickle-dump-raises'):
-            I.raise_('TypeError')
+            I.raise_('ArbitraryError')     # pickling arbitrary user state may fail with any exception type
         g = I.ctx.cell(args[1])
         tgt = g.target
         tc = I.ctx.cell(tgt)
@@ -368,7 +368,7 @@ def ser_serialize(ctx, mode):
 
     def user_ser(I, f, args, kw):
         if I.ctx.decide(FreshBool('userSerializerFails'), 'user-serializer-raises'):
-            I.raise_('UserError')
+            I.raise_('ArbitraryError')
         I.ctx.ghost['fileops'] = I.ctx.glist('fileops') + [('write', args[0], ('USER', args[1]))]
     reg = {'BytesIO.getvalue': lambda I, s, a, k: I.ctx.cell(s).fields['value']}
     mod = source.load(SMOD)
